@@ -285,7 +285,7 @@ func checkUniverse(c *core.Ctx, corpus string, u *gengotypes.Universe, pkgPaths 
 			}
 		}
 		// location (module packages only)
-		if m := p.Module(); m != nil && len(p.Files()) > 0 && corpus == "synthetic" || (p.Module() != nil && strings.HasPrefix(path, "github.com/octohelm/gengo")) {
+		if m := p.Module(); m != nil && len(p.Files()) > 0 && strings.HasPrefix(corpus, "synthetic") || (p.Module() != nil && strings.HasPrefix(path, "github.com/octohelm/gengo")) {
 			dirs := map[string]bool{}
 			for _, f := range p.Files() {
 				fn := p.FileSet().File(f.FileStart).Name()
@@ -349,6 +349,30 @@ func loadSynthetic(c *core.Ctx) (*gengotypes.Universe, []string) {
 	}
 	paths = append(paths, modPath+"/dep1", modPath+"/dep2", modPath+"/dep3", "strings")
 	return u, paths
+}
+
+// twin: the same module (same module path, same sources) checked out in a SECOND directory and loaded in
+// the same process after the first copy was loaded and queried; then the first universe is asked again.
+func checkTwin(c *core.Ctx, def int, pol map[string]int, only string) {
+	uA, paths := loadSynthetic(c)
+	if uA == nil {
+		return
+	}
+	checkUniverse(c, "synthetic-twin (first directory)", uA, paths, def, pol, only)
+	dirB := pipe.TempDir("c13twin")
+	defer os.RemoveAll(dirB)
+	if err := pipe.WriteTree(dirB, synthetic()); err != nil {
+		c.Internal("%v", err)
+		return
+	}
+	uB, err := gengotypes.Load([]string{"./..."}, gengotypes.WithDir(dirB))
+	if err != nil {
+		c.Internal("load twin: %v", err)
+		return
+	}
+	c.Trace(1)
+	checkUniverse(c, "synthetic-twin (second directory, loaded after the first)", uB, paths, def, pol, only)
+	checkUniverse(c, "synthetic-twin (first directory, asked again after the second was loaded)", uA, paths, def, pol, only)
 }
 
 func loadReal(c *core.Ctx) (*gengotypes.Universe, []string) {
@@ -512,7 +536,7 @@ func run(c *core.Ctx) {
 	} else {
 		jobs = []job{{"synthetic", 0, nil}, {"real", 0, nil}}
 	}
-	jobs = append(jobs, job{"std-small", 0, nil})
+	jobs = append(jobs, job{"std-small", 0, nil}, job{"synthetic-twin", 0, nil})
 	c.Bound("universe_loads", len(jobs))
 	nReal := 0
 	for _, j := range jobs {
@@ -523,6 +547,9 @@ func run(c *core.Ctx) {
 		var u *gengotypes.Universe
 		var paths []string
 		switch j.corpus {
+		case "synthetic-twin":
+			checkTwin(c, j.def, j.pol, "")
+			continue
 		case "synthetic":
 			u, paths = loadSynthetic(c)
 		case "std":
@@ -563,6 +590,10 @@ func replay(c *core.Ctx, raw json.RawMessage) {
 	seamctl.Set(cs.Def, cs.Policy)
 	var u *gengotypes.Universe
 	var paths []string
+	if strings.HasPrefix(cs.Corpus, "synthetic-twin") {
+		checkTwin(c, cs.Def, cs.Policy, cs.Pkg)
+		return
+	}
 	switch cs.Corpus {
 	case "synthetic":
 		u, paths = loadSynthetic(c)
@@ -582,7 +613,7 @@ func replay(c *core.Ctx, raw json.RawMessage) {
 func init() {
 	core.Register(&core.Prop{
 		ID: "C13", Level: "model_checking", Run: run, Replay: replay,
-		Rule: "packages: all 256 combinations of 8 declaration features (shadowing local types/consts, shadowing type parameters, generic receivers, grouped/blank/init declarations, method-local types, import chains, interfaces/embedding) + 4 dependency packages, and every package of the real closure of github.com/octohelm/gengo/... (std included); each universe is loaded once per map-iteration policy (4 global policies on both corpora, plus every vector with <=1 (thorough <=2) deviating loader sites); every accessor (Types/Constants/Functions, Type/Constant/Function, MethodsOf true/false, Imports, LocateInPackage, SourceDir) is compared with Scope(), Named.Method(i), the files' import specs and file directories. Non-trivial = package with at least one declaration; states = distinct (corpus, #types, #consts, #funcs, #methods, #imports)",
+		Rule: "packages: all 256 combinations of 8 declaration features (shadowing local types/consts, shadowing type parameters, generic receivers, grouped/blank/init declarations, method-local types, import chains, interfaces/embedding) + 4 dependency packages, and every package of the real closure of github.com/octohelm/gengo/... (std included); each universe is loaded once per map-iteration policy (4 global policies on both corpora, plus every vector with <=1 (thorough <=2) deviating loader sites); the synthetic module is also loaded from a second directory (same module path) in the same process, and the first universe is asked again afterwards; every accessor (Types/Constants/Functions, Type/Constant/Function, MethodsOf true/false, Imports, LocateInPackage, SourceDir) is compared with Scope(), Named.Method(i), the files' import specs and file directories. Non-trivial = package with at least one declaration; states = distinct (corpus, #types, #consts, #funcs, #methods, #imports)",
 		Assumptions: []string{
 			"blank names and init are ignored in all three tables",
 			"MethodsOf of interface types is not judged (statement: 'declared methods')",
